@@ -41,11 +41,9 @@ def isNum (v : Bytes) : Bool := v.all isDigit
 def parsePrerelease (v : Bytes) : Option (Bytes × Bytes) :=
   match v with
   | 45 :: rest =>
-    let body := rest.takeWhile (· != 43)
-    let r := rest.dropWhile (· != 43)
-    if body.all (fun c => isIdentChar c || c == 46)
-        && (splitOn 46 body).all (fun s => !s.isEmpty && !isBadNum s)
-    then some (45 :: body, r) else none
+    if (rest.takeWhile (· != 43)).all (fun c => isIdentChar c || c == 46)
+        && (splitOn 46 (rest.takeWhile (· != 43))).all (fun s => !s.isEmpty && !isBadNum s)
+    then some (45 :: rest.takeWhile (· != 43), rest.dropWhile (· != 43)) else none
   | _ => none
 
 /-- parseBuild: `+` then dot-separated non-empty identifiers to the end. -/
@@ -57,20 +55,32 @@ def parseBuild (v : Bytes) : Option (Bytes × Bytes) :=
     then some (43 :: rest, []) else none
   | _ => none
 
-def parseTail (p : Parsed) (v : Bytes) : Option Parsed :=
-  -- after patch: optional prerelease, optional build, then end
-  let pre : Option (Parsed × Bytes) := match v with
-    | 45 :: _ => (parsePrerelease v).map fun (tr : Bytes × Bytes) => ({ p with prerelease := tr.1 }, tr.2)
-    | _ => some (p, v)
-  match pre with
-  | none => none
-  | some (p, v) =>
-    let bld : Option (Parsed × Bytes) := match v with
-      | 43 :: _ => (parseBuild v).map fun (tr : Bytes × Bytes) => ({ p with build := tr.1 }, tr.2)
-      | _ => some (p, v)
-    match bld with
+/-- `if len(v) > 0 && v[0] == '-' { p.prerelease, v, ok = parsePrerelease(v) }` -/
+def parsePreOpt (p : Parsed) (v : Bytes) : Option (Parsed × Bytes) :=
+  match v with
+  | 45 :: _ =>
+    match parsePrerelease v with
+    | some (t, r) => some ({ p with prerelease := t }, r)
     | none => none
-    | some (p, v) => if v.isEmpty then some p else none
+  | _ => some (p, v)
+
+/-- `if len(v) > 0 && v[0] == '+' { p.build, v, ok = parseBuild(v) }` -/
+def parseBuildOpt (p : Parsed) (v : Bytes) : Option (Parsed × Bytes) :=
+  match v with
+  | 43 :: _ =>
+    match parseBuild v with
+    | some (t, r) => some ({ p with build := t }, r)
+    | none => none
+  | _ => some (p, v)
+
+/-- after patch: optional prerelease, optional build, then end of string -/
+def parseTail (p : Parsed) (v : Bytes) : Option Parsed :=
+  match parsePreOpt p v with
+  | none => none
+  | some (p1, v1) =>
+    match parseBuildOpt p1 v1 with
+    | none => none
+    | some (p2, v2) => if v2.isEmpty then some p2 else none
 
 def parse (v : Bytes) : Option Parsed :=
   match v with
